@@ -11,7 +11,7 @@ from vf.flo import prog as P, gen
 LEVEL = "exploration"
 RULE = ("seeded random programs with all features on (frame forests, go/timeout/repeat, let guards, actions in every context, "
         "put/inc/copy/set, plain and conditional auxiliaries, done needs, bids, slaves+fiats, periods, orders) plus a "
-        "bounded-exhaustive tiny grammar (1 framer, 3 frames, 4 nestings, per frame none or one go with 3 targets x 3 conditions); "
+        "bounded-exhaustive tiny grammar (1 framer, 3 frames, 4 nestings, per frame none or one go with 3 targets x 3 conditions); programs with singly used auxiliary framers also run as clones of moot framers against the same reference run; twin clones of one moot framer with update / change conditions against the marker-rule model; "
         "distinct = distinct program text; non-trivial = the program took >= 2 transitions")
 META = {"engine": "A floscript", "technique": "differential runtime monitoring against an independent executable reference interpreter",
         "level_text": "Every recorder event, per-tick framer status / active outline / done flag and watched store value of each generated "
